@@ -6,10 +6,11 @@ open Sozu Sozu.Proto Sozu.Trie Sozu.Router
 /-
 Line protocol (one line in, one line out):
 
-  new
-  add <pos> <host> <kind> <path> <method> <cluster> <redirect> <scheme> <tmpl> <rhost> <rpath> <rport> <auth> <pathOk> <hostOk> <table>
-  rem <pos> <host> <kind> <path> <method> <pathOk> <hostOk> <table>
-  probe <host> <path> <method> <table>
+  new [http|https]      (no argument: the bare Router; http: HttpProxy + one HTTP listener; https: an HttpsListener)
+  add <pos> <host> <kind> <path> <method> <cluster> <redirect> <scheme> <tmpl> <rhost> <rpath> <rport> <auth> <pathOk> <hostOk> <table> <hdrs> <hsts> <inherit> <addr>
+  rem <pos> <host> <kind> <path> <method> <pathOk> <hostOk> <table> <addr>
+  probe <host> <path> <method> <table>      (listener modes: <host> is the Host / :authority value)
+  hsts <0|1>            (refresh_inheriting_hsts with a listener default that renders / does not render)
 
 byte strings are hex (`-` = empty), optional fields use `~` for None.
 <table> = `-` or comma-separated `<K><pat>:<subject>:<0|1>` with K in S (segment
@@ -65,7 +66,7 @@ def showON : Option Nat → String
   | some n => toString n
 
 def showResult (r : RouteResult) : String :=
-  s!"c={showOB r.cluster} r={r.redirect} s={r.scheme} t={showOB r.tmpl} h={showOB r.rhost} p={showOB r.rpath} o={showON r.rport} a={boolStr r.auth}"
+  s!"c={showOB r.cluster} r={r.redirect} s={r.scheme} t={showOB r.tmpl} h={showOB r.rhost} p={showOB r.rpath} o={showON r.rport} a={boolStr r.auth} q={r.nreq} e={r.nresp}"
 
 def insertStr (x : String) : List String → List String
   | [] => [x]
@@ -82,11 +83,13 @@ def noDollar (x : Option Bytes) : Bool :=
   | none => true
 
 structure St where
-  r : Router
+  /-- 0 = bare Router, 1 = HttpProxy with one HTTP listener, 2 = HttpsListener -/
+  mode : Nat
+  l : Listener
   spec : Spec.State
   dead : Bool
 
-def St.init : St := ⟨Router.new, [], false⟩
+def St.init (mode : Nat) : St := ⟨mode, Listener.new (mode != 1) 0, [], false⟩
 
 def parseFrontCore (pos host kind path method pathOk hostOk : String) : Option Front :=
   match pos.toNat?, hexToBytes host, kind.toNat?, hexToBytes path, optBytes method, bool01 pathOk, bool01 hostOk with
@@ -94,69 +97,108 @@ def parseFrontCore (pos host kind path method pathOk hostOk : String) : Option F
     some { pos, host, kind, path, method, pathOk := pok, hostOk := hok }
   | _, _, _, _, _, _, _ => none
 
-def showAdd : AddOut → String
-  | .ok => "ok" | .errPath => "err-path" | .errDomain => "err-domain" | .errAdd => "err-add" | .panic => "panic"
+def showL : LOut → String
+  | .ok => "ok" | .errPath => "err-path" | .errDomain => "err-domain" | .errAdd => "err-add"
+  | .errRemove => "err-remove" | .errHsts => "err-hsts" | .errInput => "err-input"
+  | .errNoListener => "err-nolistener" | .panic => "panic"
 
-def showRem : RemoveOut → String
-  | .ok => "ok" | .errPath => "err-path" | .errDomain => "err-domain" | .errRemove => "err-remove"
+def glueRefusal (o : LOut) : Bool := o = .errHsts || o = .errInput || o = .errNoListener
 
-def probeAll (o : Oracle) (s : Router) (host path method : Bytes) : String :=
-  match lookup o s host path method with
-  | some r => showResult r
-  | none => "none"
+def parseHdrs (s : String) : Option (List Nat) :=
+  if s = "-" then some [] else s.toList.mapM fun c => if c.isDigit then some (c.toNat - 48) else none
 
-def doAdd (st : St) (f : Front) (t : Table) : St × String :=
-  let a := addFront (mkOracle t false) st.r f
-  let b := addFront (mkOracle t true) st.r f
-  -- the two runs must agree on the outcome and on the lookup_mut resolution
+def parseHsts (s : String) : Option (Option (Bool × Bool)) :=
+  if s = "~" then some none
+  else match s.toList with
+    | [a, b] => match bool01 (String.ofList [a]), bool01 (String.ofList [b]) with
+      | some x, some y => some (some (x, y))
+      | _, _ => none
+    | _ => none
+
+def probeAll (o : Oracle) (st : St) (host path method : Bytes) : Option String :=
+  match (if st.mode = 0 then some (lookup o st.l.fronts host path method) else st.l.lookup o host path method) with
+  | none => none
+  | some (some r) => some (showResult r)
+  | some none => some "none"
+
+def suffix (st : St) (o : Oracle) (host : Bytes) : String :=
+  if st.mode = 0 then " hh=" ++ boolStr (hasHostname o st.l.fronts host)
+  else if st.mode = 1 then " t=" ++ boolStr (st.l.tags.contains host)
+  else ""
+
+def doAdd (st : St) (f : Front) (addr : Nat) (t : Table) : St × String :=
+  let a := st.l.add (mkOracle t false) f addr
+  let b := st.l.add (mkOracle t true) f addr
   let agree := a.2 = b.2 &&
-    (domainLookupMut (mkOracle t false).seg st.r.tree f.host false).map (·.1) =
-    (domainLookupMut (mkOracle t true).seg st.r.tree f.host false).map (·.1)
+    (domainLookupMut (mkOracle t false).seg st.l.fronts.tree f.host false).map (·.1) =
+    (domainLookupMut (mkOracle t true).seg st.l.fronts.tree f.host false).map (·.1)
   if !agree then (st, "missing-oracle")
   else if a.2 = .panic then ({ st with dead := true }, "panic")
-  else ({ st with r := a.1, spec := Spec.step st.spec (.add f) }, showAdd a.2)
+  else ({ st with l := a.1, spec := if glueRefusal a.2 then st.spec else Spec.step st.spec (.add (if st.l.https then f else { f with inherit := false })) }, showL a.2)
 
-def doRem (st : St) (f : Front) (t : Table) : St × String :=
-  let a := removeFront (mkOracle t false) st.r f
-  let b := removeFront (mkOracle t true) st.r f
-  let agree := a.2 = b.2 &&
-    (domainLookupMut (mkOracle t false).seg st.r.tree f.host false).map (·.1) =
-    (domainLookupMut (mkOracle t true).seg st.r.tree f.host false).map (·.1)
+def doRem (st : St) (f : Front) (addr : Nat) (t : Table) : St × String :=
+  let a := st.l.remove (mkOracle t false) f addr
+  let b := st.l.remove (mkOracle t true) f addr
+  let st0 := { st with l := a.1 }
+  let st1 := { st with l := b.1 }
+  let agree := a.2 = b.2 && suffix st0 (mkOracle t false) f.host = suffix st1 (mkOracle t true) f.host &&
+    (domainLookupMut (mkOracle t false).seg st.l.fronts.tree f.host false).map (·.1) =
+    (domainLookupMut (mkOracle t true).seg st.l.fronts.tree f.host false).map (·.1)
   if !agree then (st, "missing-oracle")
-  else ({ st with r := a.1, spec := Spec.step st.spec (.remove f) }, showRem a.2)
+  else ({ st0 with spec := if glueRefusal a.2 then st.spec else Spec.step st.spec (.remove f) },
+        showL a.2 ++ suffix st0 (mkOracle t false) f.host)
 
 def doProbe (st : St) (host path method : Bytes) (t : Table) : String :=
   let o0 := mkOracle t false
   let o1 := mkOracle t true
-  let a := probeAll o0 st.r host path method ++ " | " ++ showSpec (Spec.route o0 st.spec host path method)
-  let b := probeAll o1 st.r host path method ++ " | " ++ showSpec (Spec.route o1 st.spec host path method)
-  if a = b then a else "missing-oracle"
+  let one (o : Oracle) : String :=
+    match probeAll o st host path method with
+    | none => "err-host"
+    | some x =>
+      let h := if st.mode = 0 then host else (authorityHost host).getD host
+      x ++ " | " ++ showSpec (Spec.route o st.spec h path method)
+  if one o0 = one o1 then one o0 else "missing-oracle"
+
+def doHsts (st : St) (edit : Bool) : St :=
+  { st with l := { st.l with fronts := refreshHsts edit st.l.fronts },
+            spec := st.spec.map fun fe => { fe with route := refreshRoute edit fe.route } }
 
 def stepLine (st : St) (line : String) : St × List String :=
   match words line with
-  | ["new"] => (St.init, ["new"])
+  | ["new"] => (St.init 0, ["new"])
+  | ["new", "http"] => (St.init 1, ["new"])
+  | ["new", "https"] => (St.init 2, ["new"])
   | ws =>
     if st.dead then (st, ["dead"]) else
     match ws with
-    | ["add", pos, host, kind, path, method, cluster, redirect, scheme, tmpl, rhost, rpath, rport, auth, pathOk, hostOk, table] =>
+    | ["add", pos, host, kind, path, method, cluster, redirect, scheme, tmpl, rhost, rpath, rport, auth, pathOk, hostOk, table,
+       hdrs, hsts, inherit, addr] =>
       match parseFrontCore pos host kind path method pathOk hostOk, optBytes cluster, optNat redirect, optNat scheme,
-            optBytes tmpl, optBytes rhost, optBytes rpath, optNat rport, optBool auth, parseTable table with
-      | some f, some cluster, some redirect, some scheme, some tmpl, some rhost, some rpath, some rport, some auth, some t =>
-        if !(noDollar rhost && noDollar rpath) then (st, ["bad-op"]) else
-        let f := { f with cluster, redirect, scheme, tmpl, rhost, rpath, rport, auth }
-        let (st', o) := doAdd st f t
+            optBytes tmpl, optBytes rhost, optBytes rpath, optNat rport, optBool auth, parseTable table,
+            parseHdrs hdrs, parseHsts hsts, bool01 inherit, addr.toNat? with
+      | some f, some cluster, some redirect, some scheme, some tmpl, some rhost, some rpath, some rport, some auth, some t,
+        some headers, some hsts, some inherit, some addr =>
+        if !(noDollar rhost && noDollar rpath) then (st, ["bad-op"])
+        else if st.mode != 1 && f.pos > 2 then (st, ["bad-op"]) else
+        let f := { f with cluster, redirect, scheme, tmpl, rhost, rpath, rport, auth, headers, hsts, inherit }
+        let (st', o) := doAdd st f (if st.mode = 1 then addr else 0) t
         (st', [o])
-      | _, _, _, _, _, _, _, _, _, _ => (st, ["bad-op"])
-    | ["rem", pos, host, kind, path, method, pathOk, hostOk, table] =>
-      match parseFrontCore pos host kind path method pathOk hostOk, parseTable table with
-      | some f, some t =>
-        let (st', o) := doRem st f t
+      | _, _, _, _, _, _, _, _, _, _, _, _, _, _ => (st, ["bad-op"])
+    | ["rem", pos, host, kind, path, method, pathOk, hostOk, table, addr] =>
+      match parseFrontCore pos host kind path method pathOk hostOk, parseTable table, addr.toNat? with
+      | some f, some t, some addr =>
+        if st.mode != 1 && f.pos > 2 then (st, ["bad-op"]) else
+        let (st', o) := doRem st f (if st.mode = 1 then addr else 0) t
         (st', [o])
-      | _, _ => (st, ["bad-op"])
+      | _, _, _ => (st, ["bad-op"])
     | ["probe", host, path, method, table] =>
       match hexToBytes host, hexToBytes path, hexToBytes method, parseTable table with
       | some h, some p, some m, some t => (st, [doProbe st h p m t])
       | _, _, _, _ => (st, ["bad-op"])
+    | ["hsts", e] =>
+      match bool01 e with
+      | some edit => if st.mode = 1 then (st, ["bad-op"]) else (doHsts st edit, ["ok"])
+      | none => (st, ["bad-op"])
     | _ => (st, ["bad-op"])
 
-def main : IO Unit := runDriver stepLine St.init
+def main : IO Unit := runDriver stepLine (St.init 0)
